@@ -135,6 +135,16 @@ class Gen:
             return "((bit) %s)" % E(r.choice(["int", "float", "long"]))
         if ty == "boolean":
             c = r.random()
+            if self.edge and r.random() < 0.12:
+                # neighbours that only exact 64-bit integer comparison tells apart (doubles cannot above 2^53)
+                base = r.choice([9007199254740992, 9007199254740993, 4611686018427387904, 9223372036854775806, 36028797018963968,
+                                 1152921504606846977])
+                a = base + r.choice([0, 0, 1, -1])
+                b = base + r.choice([0, 1, -1, 2])
+                sa, sb = "%dL" % a, "%dL" % b
+                if r.random() < 0.3:
+                    sa = "(%s + %s)" % (sa, r.choice(["0L", "0", "(1L - 1L)"]))
+                return "(%s %s %s)" % (sa, r.choice(["==", "!=", "==", "!=", "<", ">", "<=", ">="]), sb)
             if c < 0.4:
                 t = r.choice(["int", "long", "float"])
                 t2 = t if r.random() < 0.7 else r.choice(["int", "long", "float"])
